@@ -114,6 +114,10 @@ impl Session {
             return;
         }
 
+        if self.peers.contains_key(&addr) {
+            return;
+        }
+
         let mut peer_handler = PeerHandler::new(
             addr.clone(),
             self.own_id,
